@@ -98,6 +98,9 @@ def main(argv=None):
     if a.what == "selftest":
         from . import selftest
         return selftest.main(a)
+    if a.what == "benign":
+        from . import benign
+        return benign.main(a)
     if a.what == "all":
         rc = 0
         with open(os.path.join(core.VERIF, "MANIFEST.json")) as f:
